@@ -158,14 +158,36 @@ def rule_endkw(run):
     rp = prog.func(T + 'read_parameters')
     stop = None
     node = None
+    unknown_elts = 0
     for n in ast.walk(rp.node):
         if isinstance(n, ast.ListComp) and isinstance(n.elt, ast.Call) and call_name(n.elt) == 'startswith':
             v = Folder(prog, 't2data').fold(n.generators[0].iter)
             if v is not TOP: stop, node = set(v), n
+            else:
+                # a concatenation of lists some of whose elements are run-time values: each such element is ONE string, whatever it is
+                def parts(e):
+                    if isinstance(e, ast.BinOp) and isinstance(e.op, ast.Add):
+                        a, b = parts(e.left), parts(e.right)
+                        return None if a is None or b is None else (a[0] | b[0], a[1] + b[1])
+                    w = Folder(prog, 't2data').fold(e)
+                    if w is not TOP and isinstance(w, (list, tuple)): return (set(w), 0)
+                    if isinstance(e, (ast.List, ast.Tuple)):
+                        known, unk = set(), 0
+                        for x in e.elts:
+                            wx = Folder(prog, 't2data').fold(x)
+                            if wx is not TOP and isinstance(wx, str): known.add(wx)
+                            elif isinstance(x, ast.Starred): return None
+                            else: unk += 1
+                        return (known, unk)
+                    return None
+                pr = parts(n.generators[0].iter)
+                if pr is not None: stop, node, unknown_elts = pr[0], n, pr[1]
     key = 't2data.read_parameters :: continuation loop stops on every driver keyword'
     if stop is None or not dset:
         run.unknown(key, 'keyword sets not resolved', where=rp.where()); return
     missing = sorted(dset - stop)
+    if missing and unknown_elts and len(missing) <= unknown_elts:
+        run.unknown(key, '%d run-time element(s) in the stop list could be the missing %s' % (unknown_elts, missing), where=rp.where(node)); return
     if missing:
         run.violated(key, 'the loop reading extra default-incon lines does not stop on %s: when PARAM is the last section written '
                      '(mesh in a MESH file) the end keyword line is parsed as a record and lost (ENDFI becomes ENDCY)' % missing,
@@ -271,6 +293,18 @@ def compare_maps(run, keybase, rmap, wsyms, fields, clsname, rfi, wfi, rnode, wn
                          where=wfi.where(wnode), rule='NAMEFIX')
         elif 'Fix' in rwr:
             run.ok(key + ' namefix', rule='NAMEFIX')
+        _verbatim(run, key, fld, rwr, w.wr, rfi, rnode)
+
+
+def _verbatim(run, key, fld, rwr, wwr, rfi, rnode):
+    """a character field is stored as read: blanks stripped by the reader are not put back by the `%Ns` conversion, which
+    pads on the left, so a left-justified value comes back different and is rewritten shifted"""
+    if fld.typ != 's': return
+    if 'Strip' in rwr and not ('Ljust' in wwr or 'Rjust' in wwr):
+        run.violated(key + ' verbatim', 'character field %s is stripped of blanks by the reader but written without re-justifying: a value '
+                     'like "AIR " is read back as "AIR" and rewritten as " AIR"' % fld.name, where=rfi.where(rnode), rule='FMAP', robust=True)
+    else:
+        run.ok(key + ' verbatim', rule='FMAP')
 
 
 def rule_fmap(run):
@@ -318,8 +352,16 @@ def rule_fmap(run):
                 run.violated(key + ' namefix', 'generator.%s: reader %s fix_blockname, writer %s unfix_blockname'
                              % (f.name, 'applies' if rf else 'does not apply', 'applies' if wf else 'does not apply'), where=wfi.where(), rule='NAMEFIX')
             elif rf: run.ok(key + ' namefix', rule='NAMEFIX')
+            _verbatim(run, key, f, d[0][1], (), rfi, rnode)
     except AnalysisError as e:
         run.unknown('t2data generator', str(e), where=rfi.where())
+    # the fix is made on every path to the hand-over, not only under some option
+    from .io_common import fix_dominates_rule
+    nfix = 0
+    for rname in ('read_blocks', 'read_connections', 'read_generator', 'read_incons'):
+        nfix += fix_dominates_rule(run, prog.func(T + rname), ('t2block', 't2connection', 't2generator', 't2blockincon', 'add_block', 'add_connection',
+                                                               'add_generator', 'add_incon', 'block_exists'))
+    if nfix < 4: run.unknown('t2data readers :: block names fixed before the hand-over', 'only %d hand-overs found' % nfix, rule='NAMEFIX')
     # slice records: type + parameters
     for rname, wname, pairs in (('read_rocktypes', 'write_rocktypes', [('rocks1.2', 'rocks1.2', 0), ('rocks1.3', 'rocks1.2', 1)]),
                                 ('read_rpcap', 'write_rpcap', [('relative_permeability', 'relative_permeability', 0), ('capillarity', 'capillarity', 0)])):
@@ -428,6 +470,10 @@ def rule_byname(run):
                         kind = n.iter.attr[:-4] if n.iter.attr.endswith('list') else n.iter.attr                    # for rt in self.grid.rocktypelist
                     if isinstance(n, ast.Assign) and norm(n.targets[0]) == o.id and isinstance(n.value, ast.Subscript) and \
                        isinstance(n.value.value, ast.Attribute): kind = n.value.value.attr
+                    # rt = rocktype(...)  (the object is built into a local and then added to the model): the class name is the kind
+                    if isinstance(n, ast.Assign) and norm(n.targets[0]) == o.id and isinstance(n.value, ast.Call) and isinstance(n.value.func, ast.Name) \
+                       and prog.find_class(n.value.func.id) is not None:
+                        kind = n.value.func.id[2:] if n.value.func.id.startswith('t2') else n.value.func.id
                 if kind is None and o.id in fi.params: kind = 'param'
             if kind: return kind + '.__dict__'
         return norm(e)
